@@ -50,6 +50,11 @@ public:
         assert(ring_size > 0 && "workpool ring_size must be > 0");
         ring = FlexRingChannel::create(ring_size, QUEUE_YIELD_COUNT, QUEUE_YIELD_US);
         if (!ring) abort();
+#ifdef PHOTON_VERIF     // model checking: no busy-yield phase before blocking on the ring's semaphores
+        FlexRingChannel::destroy(ring);
+        ring = FlexRingChannel::create(ring_size, 0, 0);
+        if (!ring) abort();
+#endif
         vcpus.reserve(vcpu_num);
         for (size_t i = 0; i < vcpu_num; ++i) {
             owned_std_threads.emplace_back(
@@ -129,6 +134,9 @@ public:
         ready_vcpu.signal(1);
         for (;;) {
             auto yc = running_tasks ? 0 : QUEUE_YIELD_COUNT;
+#ifdef PHOTON_VERIF     // model checking: see above
+            yc = 0;
+#endif
             auto task = ring->recv(yc, QUEUE_YIELD_US);
             if (!task) break;
             running_tasks = running_tasks + 1; // ++ -- are deprecated for volatile in C++20
